@@ -80,7 +80,7 @@ TIES = {
             "LocalBioFilter.valid": ("DswModel.Tie.BfValid", ["tie_LocalBioFilter_valid", "tie_LocalBioFilter"]),
             "DefaultBioFilter.valid": ("DswModel.Tie.BfValid", ["tie_DefaultBioFilter_valid"]),
         },
-        "extra_modules": ["DswModel.Tie.BfCorollaries"],
+        "extra_modules": ["DswModel.Tie.BfCorollaries", "DswModel.Tie.BfPipeline"],
     },
 }
 
